@@ -11,6 +11,9 @@ import ShapeVerif.Model.Infer
 import ShapeVerif.Model.Display
 import ShapeVerif.Model.Serde
 import ShapeVerif.Model.Cost
+import ShapeVerif.Model.Lexer
+import ShapeVerif.Model.Parser
+import ShapeVerif.Model.ParseCst
 import ShapeVerif.Ref.Sem
 import ShapeVerif.Ref.Rfc8259
 import ShapeVerif.Ref.Witness
@@ -114,6 +117,39 @@ def pC09 (k : Nat) (ds : List Doc) : String :=
         | .ok s => go rest (acc ++ " " ++ under (sexp s))
     go ds ("ok " ++ under (sexp base))
 
+def tokName : Tok → String
+  | .eof => "EOF" | .ws => "Whitespace" | .nl => "Newline" | .true_ => "True" | .false_ => "False"
+  | .null_ => "Null" | .lbrace => "LBrace" | .rbrace => "RBrace" | .lbrak => "LBrak" | .rbrak => "RBrak"
+  | .comma => "Comma" | .colon => "Colon" | .string => "String" | .number => "Number" | .error => "Error"
+
+def diagName : DiagKind → String
+  | .invalidToken => "invalid-token" | .unterminated => "unterminated" | .badUnicode => "bad-unicode-escape"
+  | .badEscape => "bad-escape" | .badChar => "bad-char" | .tooDeep => "too-deep" | .syntax => "syntax"
+
+def showDiags (ds : List Diag) : String :=
+  ds.foldl (fun acc d => acc ++ " " ++ diagName d.kind ++ "@" ++ toString d.start ++ ".." ++ toString d.stop) ""
+
+def showPErr : PErr → String
+  | .invalidJson v s e => "err InvalidJson " ++ toString s ++ " " ++ toString e ++ " " ++ hexOfString v
+  | .tooManyRootNodes n => "err TooManyRootNodes " ++ toString n
+  | .invalidType t => "err InvalidType " ++ hexOfString t
+  | .invalidObjectKey => "err InvalidObjectKey"
+  | .invalidObjectValue => "err InvalidObjectValue"
+  | .invalidObjectValueType v e => "err InvalidObjectValueType " ++ sexp v ++ " " ++ sexp e
+  | .unknown => "err Unknown"
+  | .emptyFile => "err EmptyFile"
+
+def showOutcomeShape : Outcome Shape → String
+  | .ok s => "ok " ++ sexp s
+  | .err e => showPErr e
+  | .panic => "panic"
+
+def textsOfHex : List String → Option (List (List Char))
+  | [] => some []
+  | h :: hs => match textOfHex h, textsOfHex hs with
+    | some t, some ts => some (t.toList :: ts)
+    | _, _ => none
+
 def step (line : String) : String :=
   match line.splitOn "\t" with
   | ["subset", a, b] => withShape a fun a => withShape b fun b => showBool (isSubset a b)
@@ -145,6 +181,19 @@ def step (line : String) : String :=
   | ["display", a] => withShape a fun a =>
       if asciiKeys a then hexOfString (display a) else "unmodelled"
   | ["echo", a] => withShape a fun a => sexp a
+  | ["cst", h] =>
+      match textOfHex h with
+      | none => "bad-text"
+      | some t =>
+        let r := parse t.toList
+        (dumpNode 0 r.root).1 ++ " |" ++ showDiags r.diags
+  | ["lex", h] =>
+      match textOfHex h with
+      | none => "bad-text"
+      | some t =>
+        let r := tokenize t.toList
+        r.tokens.foldl (fun acc tk => acc ++ tokName tk.kind ++ "@" ++ toString tk.start ++ ".." ++ toString tk.stop ++ " ") ""
+          ++ "|" ++ showDiags r.diags
   | ["ticks_subset", a, b] => withShape a fun a => withShape b fun b =>
       let r := subsetT a b
       showBool r.1 ++ " " ++ toString r.2
@@ -167,22 +216,17 @@ def step (line : String) : String :=
       | some b => if Shape.cmp a b == .eq then "ok" else "violated: serde round trip"
       | none => "violated: serde round trip"
   | ["inferdoc", h] =>
-      match docOfHex h with
-      | none => "not-json"
-      | some d => match inferDoc d with
-        | .ok s => "ok " ++ sexp s
-        | .error e => showInferErr e
+      match textOfHex h with
+      | none => "bad-text"
+      | some t => showOutcomeShape (fromStr t.toList)
   | ["inferv", h] =>
       match docOfHex h with
       | none => "not-json"
       | some d => "ok " ++ sexp (inferSVal d.toSVal)
   | "sourcesdoc" :: hs =>
-      match docsOfHex hs with
-      | none => "not-json"
-      | some ds => match fromSourcesDoc ds with
-        | .ok s => "ok " ++ sexp s
-        | .error (.infer e) => showInferErr e
-        | .error .emptyFile => "err EmptyFile"
+      match textsOfHex hs with
+      | none => "bad-text"
+      | some ts => showOutcomeShape (fromSources ts)
   | ["admits", a, h] => withShape a fun a =>
       match docOfHex h with
       | none => "not-json"
@@ -193,17 +237,19 @@ def step (line : String) : String :=
       | (none, n) => "ok " ++ toString n
   | ["wf", a] => withShape a fun a => showBool a.wf
   | ["superset", a, h] => withShape a fun a =>
-      match docOfHex h with
-      | none => "unmodelled"
-      | some d => match inferDoc d with
-        | .ok s => showBool (isSubset s a)
-        | .error _ => "false"
+      match textOfHex h with
+      | none => "bad-text"
+      | some t => match isSuperset a t.toList with
+        | .ok b => showBool b
+        | .err e => showPErr e
+        | .panic => "panic"
   | ["supersetchk", a, h] => withShape a fun a =>
-      match docOfHex h with
-      | none => "unmodelled"
-      | some d => match inferDoc d with
-        | .ok s => "ok " ++ showBool (isSubset s a)
-        | .error e => showInferErr e
+      match textOfHex h with
+      | none => "bad-text"
+      | some t => match isSupersetChecked a t.toList with
+        | .ok b => "ok " ++ showBool b
+        | .err e => showPErr e
+        | .panic => "panic"
   | "kfclass" :: "d3" :: hs =>
       match docsOfHex hs with
       | none => "not-json"
